@@ -589,10 +589,10 @@ namespace glm
 	)
 	{
 		return typename mat<4, 4, T, Q>::row_type(
-			glm::dot(m[0], v),
-			glm::dot(m[1], v),
-			glm::dot(m[2], v),
-			glm::dot(m[3], v));
+			detail::compute_dot<vec<4, T, Q>, T, detail::is_aligned<Q>::value>::call(m[0], v),
+			detail::compute_dot<vec<4, T, Q>, T, detail::is_aligned<Q>::value>::call(m[1], v),
+			detail::compute_dot<vec<4, T, Q>, T, detail::is_aligned<Q>::value>::call(m[2], v),
+			detail::compute_dot<vec<4, T, Q>, T, detail::is_aligned<Q>::value>::call(m[3], v));
 	}
 
 	template<typename T, qualifier Q>
